@@ -64,7 +64,7 @@ Proof.
     destruct (off + sk >? off + sz) eqn:Hpast.
     + cbn [step_contract wseek wbase fdata]. unfold win_inv; cbn [wseek wbase fdata].
       unfold read_count. rewrite len_nil.
-      repeat split; try lia; try reflexivity; try congruence.
+      repeat split; try lia; try reflexivity; try congruence; try (now rewrite slice_0).
       destruct (n <? 0) eqn:?; lia.
     + rewrite pf_seek_abs by lia. cbn [bind].
       assert (Hsk2 : 0 <= sk <= sz) by lia.
@@ -101,7 +101,7 @@ Proof.
     unfold win_write. cbn [wseek wbase].
     destruct (sk >? sz) eqn:Hpast.
     + cbn [step_contract wseek wbase fdata]. unfold win_inv; cbn [wseek wbase fdata].
-      pose proof (len_nonneg d). repeat split; try lia; auto.
+      pose proof (len_nonneg d). repeat split; try lia; auto. now rewrite slice_0, take_0.
     + rewrite pf_seek_abs by lia. cbn [bind]. unfold pf_write. cbn [fdata fpos].
       set (d' := win_write_data sz sk d).
       assert (Hd' : d' = take d (Z.min (len d) (sz - sk))).
@@ -109,8 +109,8 @@ Proof.
         destruct (len d + sk >? sz) eqn:?.
         - unfold pyslice, clampidx.
           destruct (- (len d + sk - sz) <? 0) eqn:?; [|lia].
-          unfold slice, take. simpl skipn. f_equal. lia.
-        - unfold take. rewrite Z.min_l by lia. unfold len. rewrite Nat2Z.id. symmetry. apply firstn_all. }
+          rewrite ?slice_raw, ?take_raw; unfold slice0, take0. simpl skipn. f_equal. lia.
+        - rewrite ?take_raw; unfold take0. rewrite Z.min_l by lia. unfold len. rewrite Nat2Z.id. symmetry. apply firstn_all. }
       pose proof (len_nonneg d) as Hld.
       assert (Hlen' : len d' = Z.min (len d) (sz - sk)).
       { rewrite Hd'. rewrite len_take by lia. lia. }
@@ -120,7 +120,7 @@ Proof.
       * (* nothing stored *)
         cbn [overlay]. rewrite len_nil in Hlen'.
         repeat split; try lia; auto.
-        rewrite <- Hlen'. unfold take, slice. reflexivity.
+        rewrite <- Hlen'. rewrite ?take_raw, ?slice_raw; unfold take0, slice0. reflexivity.
       * assert (Hne : x :: d'' <> []) by congruence.
         repeat split; try lia.
         -- intros i Hi. rewrite nth_error_overlay by exact Hne. cbv zeta.
